@@ -53,7 +53,7 @@ func (p *pkgInfo) constOf(e ast.Expr) constant.Value {
 	return nil
 }
 
-func (p *pkgInfo) constInt(e ast.Expr) int {
+func (p *pkgInfo) c06ConstInt(e ast.Expr) int {
 	v := p.constOf(e)
 	n, ok := constant.Int64Val(constant.ToInt(v))
 	if !ok {
@@ -70,7 +70,7 @@ func (p *pkgInfo) litElems(cl *ast.CompositeLit, size int) []ast.Expr {
 	for _, e := range cl.Elts {
 		v := e
 		if kv, ok := e.(*ast.KeyValueExpr); ok {
-			idx = p.constInt(kv.Key)
+			idx = p.c06ConstInt(kv.Key)
 			v = kv.Value
 		}
 		for len(out) <= idx {
@@ -92,7 +92,7 @@ func (p *pkgInfo) arrayLen(cl *ast.CompositeLit) int {
 		}
 	}
 	if at, ok := cl.Type.(*ast.ArrayType); ok && at.Len != nil {
-		return p.constInt(at.Len)
+		return p.c06ConstInt(at.Len)
 	}
 	return 0
 }
@@ -106,7 +106,7 @@ func (p *pkgInfo) emitIntTable(w *bytes.Buffer, prefix, name string) {
 			parts = append(parts, "0")
 			continue
 		}
-		parts = append(parts, fmt.Sprint(p.constInt(e)))
+		parts = append(parts, fmt.Sprint(p.c06ConstInt(e)))
 	}
 	fmt.Fprintf(w, "Definition %s_%s : list Z := [%s].\n", prefix, name, strings.Join(parts, "; "))
 }
@@ -148,7 +148,7 @@ func (p *pkgInfo) emitStructTable(w *bytes.Buffer, prefix, name string, fields [
 				found := false
 				for i, f := range fields {
 					if f == k {
-						n := p.constInt(kv.Value)
+						n := p.c06ConstInt(kv.Value)
 						vals[i] = fmt.Sprint(n)
 						if n < 0 {
 							vals[i] = fmt.Sprintf("(%d)", n)
@@ -199,7 +199,7 @@ func (p *pkgInfo) byteSliceLits(fd *ast.FuncDecl) [][]int {
 			if _, ok := e.(*ast.KeyValueExpr); ok {
 				return true
 			}
-			v = append(v, p.constInt(e))
+			v = append(v, p.c06ConstInt(e))
 		}
 		out = append(out, v)
 		return true
